@@ -162,8 +162,9 @@ def catalogue(tier, seed):
 # ------------------------------------------------------------------ legs
 
 def leg_m_jobs(tier):
-    jobs = [("MCSync", "Sync_byz_quick.cfg", "Sync byzantine (victim + honest + Byzantine peer, TreeB): safety + HonestProgress", 6, 1500)]
+    jobs = [("MCSync", "Sync_byz_quick.cfg", "Sync byzantine (victim + honest + Byzantine peer, 8-block tree): safety + HonestProgress", 6, 1500)]
     if tier == "thorough":
+        jobs.append(("MCSync", "Sync_byz_full.cfg", "Sync byzantine (victim + honest + Byzantine peer, TreeB, all victim positions): safety + HonestProgress", 6, 3000))
         jobs.append(("MCSync", "Sync_byz_req1.cfg", "Sync byzantine, every download on the pre-validated path (ReqH = 1): safety + HonestProgress", 6, 3000))
     return jobs
 
@@ -276,3 +277,58 @@ def run(tier):
     }
     vlib.write_evidence(PROP, tier, "model_checking", cov, ASSUMPTIONS, time.time() - t0, len(verdict.violations))
     return rc
+
+
+def replay(path):
+    return C12.replay_common(PROP, path)
+
+
+def selftest():
+    wd = vlib.workdir(PROP + "-selftest")
+    binary = vlib.go_build("syncx", wd)
+    # 1. Leg R against a deliberately wrong oracle
+    v = vlib.Verdict(PROP + "-selftest"); v.findings = []
+    C12.leg_r(wd, "quick", binary, v, family="byz", stub="tip-a4-is-a3")
+    ok1 = any(m["sig"].startswith("replay:byz:") for m in v.violations)
+    log("selftest 1 (replay against a wrong oracle finds a mismatch): %s" % ("ok" if ok1 else "FAILED"))
+    # 2. corrupted traces
+    scs = [s for s in catalogue("quick", 1) if "fork-badtxn@0" in s["shape"] or "SendV2Blocks-payout" in s["shape"] or "txset-empty" in s["shape"]][:6]
+    v2 = vlib.Verdict(PROP + "-selftest"); v2.findings = []
+    leg_t(wd, "quick", binary, v2, scenarios=scs)
+    src = [os.path.join(wd, f) for f in sorted(os.listdir(wd)) if f.startswith("byztrace-") and os.path.getsize(os.path.join(wd, f)) > 0]
+    ok2 = True
+
+    def ban_honest(e):
+        if e["op"] == "Ban" and e["who"].startswith("byz:"):
+            e["who"] = "honest:p0"
+            return True
+
+    def lost_ban(e):
+        # a rejected submission that is NOT followed by a Ban: turn the Ban into a harmless pool event
+        if e["op"] == "Ban" and e["kind"] == "invalid-block" and e["why"].startswith("peer sent invalid blocks") or (e["op"] == "Ban" and "reorg failed" in e.get("why", "")):
+            e["op"] = "AddV2Pool"; e["n"] = 1; e["bk"] = True; e["tip"] = "__same__"
+            return True
+
+    def hide_err(e):
+        if e["op"] == "AddBlocks" and e["err"]:
+            e["err"] = False
+            return True
+    for name, mut in (("ban-of-honest-peer", ban_honest), ("hidden-rejection", hide_err)):
+        got = None
+        for f in src:
+            got = C12.corrupt_and_validate(wd, f, mut, name)
+            if got is not None:
+                break
+        log("selftest 2 (trace with %s rejected by TLC): %s" % (name, "ok" if got else ("FAILED" if got is False else "no such event")))
+        ok2 = ok2 and bool(got)
+    # 3. the model without pre-validation of instant-sync batches must violate AlwaysValid
+    x = vlib.run_tlc(wd, "MCSync", "Sync_byz_mut_novalidate.cfg", workers=4, timeout=900)
+    ok3 = x.exit != 0 and x.violated == "AlwaysValid"
+    log("selftest 3 (model without ValidateBlock on the instant-sync path violates AlwaysValid): %s" % ("ok" if ok3 else "FAILED"))
+    # 4. the ban expectation bites: a corruption the code answers by dropping is not accepted as 'banned'
+    sc = scen("self1", "mid", [zspec(rules=[dict(rpc="SendHeaders", kind="unlinked", pos=1)], expect="ban")])
+    v4 = vlib.Verdict(PROP + "-selftest"); v4.findings = []
+    leg_t(wd, "quick", binary, v4, scenarios=[sc])
+    ok4 = any(m["sig"].startswith("byz:not-banned") for m in v4.violations)
+    log("selftest 4 (a missing PeerStore.Ban is detected): %s" % ("ok" if ok4 else "FAILED"))
+    return 0 if ok1 and ok2 and ok3 and ok4 else 2
